@@ -304,6 +304,17 @@ impl Server {
     }
 
     fn handle_health_check(&mut self) {
+        // The listener is edge-triggered: accept until it would block, otherwise connections
+        // that arrived together with the first one are never answered
+        loop {
+            if !self.accept_health_check() {
+                break;
+            }
+        }
+    }
+
+    // Accept and answer one health check connection; returns false when no connection is pending
+    fn accept_health_check(&mut self) -> bool {
         let listener = self.health_listener.as_ref().unwrap();
         match listener.accept() {
             Ok((ref mut stream, src_addr)) => {
@@ -322,15 +333,19 @@ impl Server {
                     Ok(_) => (),
                     Err(e) => warn!("error in health check socket shutdown {}", e),
                 }
+
+                true
             }
             Err(ref e) if e.kind() == ErrorKind::WouldBlock => {
                 #[cfg(roughenough_verif)]
                 crate::verif::emit("hc_empty", vec![]);
 
                 debug!("blocking in TCP health check");
+                false
             }
             Err(e) => {
                 warn!("unexpected health check error {}", e);
+                false
             }
         }
     }
